@@ -6,6 +6,8 @@
 // same text with the same components (ASan sees any touch of the freed sources).
 // Every call is bracketed: read-only URI arguments bit-for-bit, input texts byte
 // for byte.
+#include <sys/mman.h>
+#include <map>
 #include "hist.hpp"
 
 using namespace vf;
@@ -124,4 +126,119 @@ static Verdict check(const Fields &f) {
   return Verdict::pass();
 }
 
-const Harness vf::HARNESS = {"C12", gen, check, nullptr, nullptr};
+// ---- components of 2^29 / 2^30 characters (fixed probes, one shard each) -----------------------------------------------
+// "holds its own copies of all its text ... its content equals what it was before the copy" for a component whose size
+// in BYTES no longer fits an int although its length in characters does (wchar_t: 2^29 characters are 2^31 bytes, 2^30
+// are 2^32). The text is '?' followed by n times 'a': a 2 MiB memfd of 'a' mapped over and over behind one private page,
+// so the source costs a few MB. The URI is what parsing that text yields - everything absent except the query
+// [text+1, text+1+n) - and is set up by parsing the two-character prefix "?a" and extending the query range over the rest
+// (parsing all n characters is left out only because the parser recurses once per character and this build, -O1 for the
+// sanitizers, does not turn that into a loop; regress/C12/F-W1-demo.c does the real parse with -O2).
+// The manager hands out untouched mappings and records the sizes asked for: a make-owner that does not ask for exactly
+// n characters' worth of bytes is reported before anything is read through the resulting range.
+struct BigMapMM {
+  UriMemoryManager backend, mm;
+  std::map<void *, size_t> live;
+  std::vector<size_t> asked;
+  uint64_t bad = 0;
+  BigMapMM() {
+    memset(&backend, 0, sizeof backend);
+    backend.malloc = &s_malloc; backend.free = &s_free; backend.userData = this;
+    uriCompleteMemoryManager(&mm, &backend);
+  }
+  static void *s_malloc(UriMemoryManager *m, size_t n) {
+    BigMapMM *self = (BigMapMM *)m->userData;
+    self->asked.push_back(n);
+    void *p = mmap(nullptr, n ? n : 1, PROT_READ | PROT_WRITE, MAP_PRIVATE | MAP_ANONYMOUS | MAP_NORESERVE, -1, 0);
+    if (p == MAP_FAILED) { errno = ENOMEM; return nullptr; }
+    self->live[p] = n ? n : 1;
+    return p;
+  }
+  static void s_free(UriMemoryManager *m, void *p) {
+    BigMapMM *self = (BigMapMM *)m->userData;
+    if (!p) return;
+    auto it = self->live.find(p);
+    if (it == self->live.end()) { self->bad++; return; }
+    munmap(p, it->second);
+    self->live.erase(it);
+  }
+};
+template <class A> static Verdict huge_component_probe(int log2n, bool viaNormalize) {
+  using Ch = typename A::Ch;
+  const size_t n = (size_t)1 << log2n, CH = 2u << 20, page = (size_t)sysconf(_SC_PAGESIZE);
+  if (sizeof(size_t) < 8) return Verdict::pass();
+  if ((double)sysconf(_SC_AVPHYS_PAGES) * (double)page < 16.0 * 1024 * 1024 * 1024) { stats().relax("huge_component_probe:less_than_16GiB_free"); return Verdict::pass(); }
+  size_t bytes = ((n * sizeof(Ch) + CH - 1) / CH) * CH;
+  int fd = memfd_create("vf_c12_huge", 0);
+  if (fd < 0) { stats().relax("huge_component_probe:no_memfd"); return Verdict::pass(); }
+  { std::vector<Ch> chunk(CH / sizeof(Ch), (Ch)'a'); if (write(fd, chunk.data(), CH) != (ssize_t)CH) { close(fd); stats().relax("huge_component_probe:no_memfd"); return Verdict::pass(); } }
+  char *base = (char *)mmap(nullptr, page + bytes, PROT_READ | PROT_WRITE, MAP_PRIVATE | MAP_ANONYMOUS | MAP_NORESERVE, -1, 0);
+  if (base == MAP_FAILED) { close(fd); stats().relax("huge_component_probe:no_address_space"); return Verdict::pass(); }
+  struct Unmap { char *b; size_t l; int fd; ~Unmap() { munmap(b, l); close(fd); } } unmap{base, page + bytes, fd};
+  for (size_t off = 0; off < bytes; off += CH)
+    if (mmap(base + page + off, CH, PROT_READ, MAP_SHARED | MAP_FIXED, fd, 0) == MAP_FAILED) { stats().relax("huge_component_probe:no_address_space"); return Verdict::pass(); }
+  Ch *text = (Ch *)(base + page) - 1;
+  text[0] = (Ch)'?';
+  typename A::Uri u;
+  memset(&u, 0xA5, sizeof u);
+  const Ch *ep = nullptr;
+  BigMapMM M;
+  VF_REQUIRE(A::ParseSingleUriExMm(&u, text, text + 2, &ep, &M.mm) == 0, "%s: huge component probe: parsing '?a' failed", A::name());
+  struct Rel { typename A::Uri *u; UriMemoryManager *m; ~Rel() { A::FreeUriMembersMm(u, m); } } rel{&u, &M.mm};
+  VF_REQUIRE(u.query.first == text + 1 && u.query.afterLast == text + 2 && !u.owner && !u.pathHead && !u.scheme.first && !u.hostText.first && !u.fragment.first,
+             "%s: huge component probe: '?a' did not parse to a lone query", A::name());
+  u.query.afterLast = text + 1 + n;  // the parse of '?' + n x 'a'
+  M.asked.clear();
+  int rc = viaNormalize ? A::NormalizeSyntaxExMm(&u, URI_NORMALIZE_SCHEME, &M.mm) : A::MakeOwnerMm(&u, &M.mm);
+  const char *what = viaNormalize ? "uriNormalizeSyntaxExMm(SCHEME)" : "uriMakeOwnerMm";
+  // sizes are judged first: nothing is read through a range whose block was not asked for in full
+  size_t want = n * sizeof(Ch);
+  bool askedRight = false;
+  for (size_t a : M.asked) if (a >= want && a <= want + 64) askedRight = true;  // the completed manager adds its size header
+  if (!askedRight) {
+    std::string sizes;
+    for (size_t a : M.asked) sizes += " " + std::to_string(a);
+    if (rc == 0) u.query.afterLast = u.query.first;  // keep the clean-up from walking a range that is not there
+    VF_FAIL("%s: %s on a URI with a query of 2^%d characters (rc=%d): a block of %zu bytes is needed for its copy, the manager was asked for:%s", A::name(), what, log2n, rc, want, sizes.c_str());
+  }
+  if (rc == URI_ERROR_MALLOC && M.live.empty()) { stats().relax("huge_component_probe:memory_refused"); return Verdict::pass(); }
+  VF_REQUIRE(rc == 0, "%s: %s on a URI with a query of 2^%d characters: rc=%d", A::name(), what, log2n, rc);
+  VF_REQUIRE(u.owner == URI_TRUE, "%s: %s: not flagged as owner", A::name(), what);
+  VF_REQUIRE(u.query.first != text + 1 && (size_t)(u.query.afterLast - u.query.first) == n, "%s: %s: the owned query has %td characters instead of 2^%d", A::name(), what, u.query.afterLast - u.query.first, log2n);
+  for (size_t i : {(size_t)0, (size_t)1, n / 4 - 1, n / 4, n / 2 - 1, n / 2, n / 2 + 1, 3 * (n / 4), n - 2, n - 1})
+    VF_REQUIRE(u.query.first[i] == (Ch)'a', "%s: %s: character %zu of the owned query of 2^%d characters is %ld, not 'a' (the copy is incomplete)", A::name(), what, i, log2n, (long)u.query.first[i]);
+  int need = 0;
+  VF_REQUIRE(A::ToStringCharsRequired(&u, &need) == 0 && (size_t)need == n + 1, "%s: chars required of the owned URI is %d, expected 2^%d + 1", A::name(), need, log2n);
+  A::FreeUriMembersMm(&u, &M.mm);
+  VF_REQUIRE(M.live.empty() && M.bad == 0, "%s: huge component probe: manager ledger unbalanced after release (%zu live, %llu bad frees)", A::name(), M.live.size(), (unsigned long long)M.bad);
+  return Verdict::pass();
+}
+static Verdict huge_dispatch(const Fields &f) {
+  int l2 = (int)f.geti("huge_component_log2");
+  bool vn = f.geti("via_normalize") != 0;
+  return f.get("char") == "A" ? huge_component_probe<Api<char>>(l2, vn) : huge_component_probe<Api<wchar_t>>(l2, vn);
+}
+static Verdict enumerate(int tier, int shard, int nshards, Fields *failing) {
+  (void)tier;
+  // six probes, spread over the first shards (each needs a few GiB for a moment)
+  static const struct { const char *ch; int l2; int vn; } P[] = {{"W", 29, 0}, {"W", 30, 0}, {"A", 30, 0}, {"W", 29, 1}, {"W", 30, 1}, {"A", 29, 0}};
+  for (int k = 0; k < 6; k++) {
+    if (k % nshards != shard) continue;
+    Fields c;
+    c.seti("huge_component_log2", P[k].l2); c.set("char", P[k].ch); c.seti("via_normalize", P[k].vn);
+    note_case(c);
+    Verdict v = huge_dispatch(c);
+    stats().evaluations++;
+    if (v.kind == Verdict::FAIL) {
+      if (!v.klass.empty() && known_open(v.klass)) { stats().excluded_known[v.klass]++; continue; }
+      *failing = c;
+      return v;
+    }
+    stats().hit("huge_component_probes");
+    stats().nontrivial(c.text(), std::string(P[k].ch) + ": " + (P[k].vn ? "normalise(SCHEME)" : "make-owner") + " on '?' + 2^" + std::to_string(P[k].l2) + " x 'a'");
+  }
+  return Verdict::pass();
+}
+static Verdict check_dispatch(const Fields &f) { return f.has("huge_component_log2") ? huge_dispatch(f) : check(f); }
+
+const Harness vf::HARNESS = {"C12", gen, check_dispatch, enumerate, nullptr};
